@@ -34,8 +34,8 @@ TRUSTED_BASE = [
 ]
 ASSUMPTIONS = [
     "C semantics of the emitted constructs as written in Model.v texec (block-scoped _repeat_stop/_expr/_ret temporaries abstracted into TUntil/TIn/TReturn; break inside switch leaves the switch; goto label leaves the loop)",
-    "the model compiler is tied to the generator only on programs without a defer nested inside a deferred block (the generator re-registers nested defers at every emission - known finding); function calls are inlined syntax (no recursion)",
-    "which <close> initialisers get their type in a later resolution pass is an input of the model (flag `late`): the multi-pass type resolution itself is not modelled; random programs only use late-typed variables at the end of a declaration, where the order is the declaration order either way",
+    "function calls are inlined syntax (no recursion)",
+    "which <close> initialisers get their type in a later resolution pass is an input of the model (flag `late`, printed as a polymorphic call); the repaired visit_close makes the order independent of it",
     "`continue` inside `repeat ... until c` is specified as: evaluate c at the continue statement, then leave the scopes (this is what the generator does; Lua has no continue)",
     "correspondence is differential testing over generated programs x oracle scripts, not a proof that model = code",
 ]
@@ -89,6 +89,20 @@ def gen(ctx):
     defer_reg = "context.scope:add_defer_block(blocknode)" in df
     ftv = func("visitors.Fallthrough")
     ft_closes = 0 <= ftv.find("cgenerator.emit_close_scope(context, emitter, context.scope)") < ftv.find("NELUA_FALLTHROUGH(); /* fallthrough */")
+    resets = 0 <= blk.find("scope.deferblocks = nil") < blk.find("emitter:add_list(node")
+    an = vlib.repo_read("lualib/nelua/analyzer.lua")
+    m = re.search(r"\nlocal function visit_close\(.*?\n(.*?)\nend\n", an, re.S)
+    if not m:
+        raise RuntimeError("cannot find visit_close in analyzer.lua")
+    vc = m.group(1)
+    close_decl_order = "declattr.closeindex" not in vc and bool(re.search(
+        r"local varindex = tabler\.ifind\(declnode\[2\], varnode\)\s+local closeindex = statindex \+ 1\s+for i=1,varindex-1 do\s+if closenodes\[i\] then closeindex = closeindex \+ 1 end\s+end\s+table\.insert\(blocknode, closeindex, callnode\)", vc)) \
+        and "closenodes[varindex] = callnode" in vc
+    jump_rejected = all(re.search(r"function visitors\.%s\(context, node\)\n(?:[^\n]*\n){0,2}?\s*check_jump_out_of_defer\(context, node, '%s', '%s'\)" % (v, w, k), an)
+                        for v, w, k in (("Break", "break", "is_loop"), ("Continue", "continue", "is_loop"),
+                                        ("Return", "return", "is_function"), ("In", "in", "is_doexpr"))) and \
+        "context:get_forked_scope(blocknode).is_deferblock = true" in an and \
+        bool(re.search(r"if scope\[targetkind\] or scope\.is_function then break end\s+if scope\.is_deferblock then\s+node:raisef", an))
     sc = vlib.repo_read("lualib/nelua/scope.lua")
     append = bool(re.search(r"function Scope:add_defer_block\(blocknode\).*?deferblocks\[#deferblocks\+1\] = blocknode", sc, re.S))
 
@@ -114,12 +128,16 @@ def gen(ctx):
            "Definition gen_break_cleanup_before_jump : bool := %s.\n" % b(break_order) +
            "Definition gen_defer_registers_on_current_scope : bool := %s.\n" % b(defer_reg) +
            "Definition gen_defer_blocks_appended : bool := %s.\n" % b(append) +
-           "Definition gen_fallthrough_closes_scope : bool := %s.\n" % b(ft_closes))
+           "Definition gen_fallthrough_closes_scope : bool := %s.\n" % b(ft_closes) +
+           "Definition gen_block_resets_deferblocks : bool := %s.\n" % b(resets) +
+           "Definition gen_close_defers_in_declaration_order : bool := %s.\n" % b(close_decl_order) +
+           "Definition gen_jump_out_of_defer_rejected : bool := %s.\n" % b(jump_rejected))
     vlib.write_if_changed(os.path.join(vlib.coq_dir(ID), "Gen.v"), txt)
     return {"breakflow_tags": tags, "close_loop": list(loop), "closing_guard": guard, "block_order": blk_order,
             "return_value_saved_before_cleanup": ret_tmp_first, "in_value_before_cleanup": in_first,
             "continue_order": cont_order, "break_order": break_order, "upscopes": [up_first, up_loop],
-            "fallthrough_closes_scope": ft_closes}
+            "fallthrough_closes_scope": ft_closes, "block_resets_deferblocks": resets,
+            "close_defers_in_declaration_order": close_decl_order, "jump_out_of_defer_rejected": jump_rejected}
 
 
 # ------------------------------------------------------------------ corpus / witnesses
@@ -144,27 +162,17 @@ def from_json(x):
 
 # programs on which the unchanged generator violates the property (replayed on every run; the keys are
 # listed in known_findings/C15.json).  Each: (key, void, body, oracle, what)
-WITNESSES = [
-    ("return-inside-defer: defer A end defer if c then return end end",
-     True,
-     [('defer', 1, []), ('defer', 2, [('if', 3, [('retvoid',)], [])]), ('emit', 4)],
-     [1],
-     "a `return` inside a deferred block skips the remaining defers of the scope being closed (the `closing` guard of emit_close_scope suppresses them)"),
-    ("defer-nested-in-defer emitted at two exits: defer defer X end end; if c then return end",
-     True,
-     [('defer', 1, [('defer', 2, [])]), ('if', 3, [('retvoid',)], []), ('emit', 4)],
-     [0],
-     "a defer nested in a deferred block runs once per emission of the outer block so far: visitors.Defer re-registers it on the persistent scope each time the outer block is emitted (here twice)"),
-    ("close-order: local a <close>, b <close> = late(1), mk(2) with late polymorphic",
-     True,
-     [('close', [(1, True), (2, False)]), ('emit', 3)],
-     [],
-     "<close> variables of one declaration are closed in the order their types got resolved, not in reverse declaration order: visit_close inserts each defer at closeindex+1 when the variable's type becomes known"),
-    ("close-stale-index: local a <close>, b <close> = mk(1), late(2); print(); local c <close>, d <close> = mk(3), late(4)",
-     True,
-     [('close', [(9, False), (10, True)]), ('emit', 11), ('close', [(12, False), (13, True)])],
-     [],
-     "the absolute `closeindex` stored for a declaration is stale once an earlier declaration of the block injected a defer in a later pass: the defer of the late-typed variable lands one statement too early (here before the defer of c, so d is closed after c; with more shifts before its own declaration)"),
+WITNESSES = []      # programs on which the unchanged generator violates the property (none at present)
+
+# programs the analyzer must REJECT: a jump that would leave a defer block (it used to skip the remaining
+# defers of the scope being closed).  (key, void, body)
+MUST_REJECT = [
+    ("return-inside-defer", True, [('defer', 1, []), ('defer', 2, [('if', 3, [('retvoid',)], [])]), ('emit', 4)]),
+    ("return-value-inside-defer", False, [('defer', 1, [('return', 2)]), ('return', 3)]),
+    ("break-inside-defer", True, [('while', 1, [('defer', 2, [('break',)]), ('emit', 3)])]),
+    ("continue-inside-defer", True, [('repeat', [('defer', 2, [('if', 4, [('continue',)], [])]), ('emit', 3)], 1)]),
+    ("in-inside-defer", True, [('doexpr', [('defer', 1, [('in', 2)]), ('in', 3)])]),
+    ("break-inside-nested-defer", True, [('for', 2, [('defer', 1, [('defer', 2, [('do', [('break',)])])])])]),
 ]
 
 
@@ -247,7 +255,7 @@ def correspond(ctx):
     f0 = [(v, b, orcs, "witness" if w else "corpus", k, w) for (k, v, b, orcs, w) in special]
     files.append(f0)
     streams = [("wf", dict()), ("targeted", dict()), ("wf-deep", dict(maxdepth=6)), ("wf", dict()),
-               ("escape", dict(allow_escape=True)), ("wf", dict())]
+               ("wf-deep", dict(maxdepth=5)), ("wf", dict())]
     for fi in range(nfiles):
         name, kw = streams[fi % len(streams)]
         g = c15gen.Gen(rng, **kw)
@@ -286,6 +294,21 @@ def correspond(ctx):
             ctx.violation("compile-failed:file%d" % fi, "harness",
                           "the real compiler/gcc rejected a generated C15 program file (%s): %s" % (bld["src"], bld["log"][-600:]),
                           detail={"log": bld["log"], "source": bld["src"]}, failing_input=False)
+
+    n_reject_fail = 0
+    for key, void, body in MUST_REJECT:
+        d = os.path.join(work, "reject")
+        os.makedirs(d, exist_ok=True)
+        src = os.path.join(d, key + ".nelua")
+        with open(src, "w") as f:
+            f.write(c15gen.print_program([(void, body)]))
+        rc, out, err = vlib.nelua(["--analyze", src], interp=interp, timeout=120)
+        if not (rc != 0 and "cannot jump out of a `defer` block" in (out + err)):
+            n_reject_fail += 1
+            ctx.violation("must-reject:%s" % key, "oracle",
+                          "a jump leaving a defer block is accepted by the analyzer (%s): the remaining defers of the scope being closed would be skipped; program %s" % (src, c15gen.serialise(void, body)),
+                          detail={"program": c15gen.serialise(void, body), "nelua_source": src, "output": (out + err)[-600:],
+                                  "replay": "nelua --analyze %s  (must fail with: cannot jump out of a `defer` block)" % src})
 
     def real_of(a):
         fi, ti, o = a
@@ -385,7 +408,7 @@ def correspond(ctx):
     return {
         "evaluations": n_eval,
         "distinct_nontrivial": len(nontrivial),
-        "rule": "cases = 3 fixed witnesses of known defects + corpus + random programs of the mini-language (streams wf / wf-deep / escape) x oracle scripts (all-ones, empty, random 0..3 of length 3..24); non-trivial = distinct (program, oracle) whose reference trace runs at least one deferred block",
+        "rule": "cases = corpus (incl. the regression witnesses of the repaired defects) + 6 must-reject probes + random programs of the mini-language (streams wf / wf-deep / escape) x oracle scripts (all-ones, empty, random 0..3 of length 3..24); non-trivial = distinct (program, oracle) whose reference trace runs at least one deferred block",
         "samples": [lines[0][:300], lines[len(lines) // 2][:300], lines[-1][:300]],
         "distribution": {"streams": dist, "programs": len(tok_checked), "files": len(files),
                          "distinct_exit_x_context_features": len(feats), "reference_outcomes": exits},
@@ -393,9 +416,9 @@ def correspond(ctx):
         "token_mismatches": len(tok_fail),
         "model_self_mismatches": len(self_fail),
         "escape_stream_mismatches": len(esc_fail),
+        "must_reject_probes": len(MUST_REJECT), "must_reject_failures": n_reject_fail,
         "traces_validated_against_impl": n_eval,
         "structural_comparisons": len(tok_checked),
-        "unproved": ["the accumulation of defers nested in deferred blocks (known finding 3) is outside the model: demonstrated by replay only",
-                     "the stale absolute closeindex of visit_close (known finding 5) is outside the model: demonstrated by replay only; the theorem's domain excludes a second <close> declaration with late-typed variables in one block",
-                     "polymorphic/generic function bodies and `require`d files are not generated; main-chunk programs are compared by trace only (no token comparison)"],
+        "unproved": ["polymorphic/generic function bodies and `require`d files are not generated; main-chunk programs are compared by trace only (no token comparison)",
+                     "deferred blocks containing an early `in` or a break inside a switch are not generated (duplicate C labels when such a block is emitted twice: C03 matter)"],
     }
